@@ -21,7 +21,7 @@ CONSTANTS
   MAXUPD = 1
   MAXJAIL = 0
   MAXEPOCHS = 2
-  MAXOPS = 6
+  MAXOPS = 7
   GENSUPPLY = 1000
 INVARIANTS InvSupplyDelta InvAllMoved InvBooked InvSolvent InvProportional InvCommission InvStakerPart InvNonNegative InvNoPanic EmitAtDepth
 CHECK_DEADLOCK FALSE
